@@ -22,7 +22,7 @@ BUDGET = {"quick": {"shards": 8, "examples": 250}, "thorough": {"shards": 16, "e
 
 def strategy(tier):
     p = G.Profile(kinds={"test", "section", "addtest", "func", "block", "generic", "set"}, max_items=6 if tier == "quick" else 10,
-                  depth=3 if tier == "quick" else 4, dangling=False, groups=False, impl_doc=True, dups=True, moddoc=False, body_max=3)
+                  depth=3 if tier == "quick" else 4, dangling=False, groups=False, impl_doc=True, dups=2, moddoc=False, body_max=3)
     return st.fixed_dictionaries({"module": G.module(p), "layout": G.layout_choices(24), "twins": st.sampled_from([True, False, False])})
 
 
